@@ -177,3 +177,44 @@ Proof.
   - apply exp_0.
 Qed.
 Print Assumptions real_interpretation_ok.
+
+(** ** tie by translation (regenerated on every run): harness/gen_ratesrc.py translates the five rateexpr()
+    methods of /repo into coq/gen/RateLive.v, branch by branch; the translated branches ARE the templates of
+    the model (by computation), and the model functions the law theorems above are about return, at the key of
+    every text-yielding branch, the beautified text of that branch.  A change to a rateexpr() method therefore
+    changes RateLive.v and the first theorem is re-checked against what the code says now. *)
+From NaunetGen Require Import RateLive.
+From Naunet Require Import Model.RateSrc Proofs.RateSrcSpec.
+Close Scope R_scope.
+Theorem live_rate_sources : forall ka kb kc,
+  kida_src_branches ka kb kc = kida_expected ka kb kc /\
+  umist_src_branches ka kb kc = umist_expected ka kb kc /\
+  leeds_src_branches ka kb kc = leeds_expected ka kb kc /\
+  uclchem_src_branches ka kb kc = uclchem_expected ka kb kc /\
+  native_src_branches ka kb kc = native_expected ka kb kc /\
+  (* the three coefficients are alpha, beta, gamma and every method ends with the sign clean-up *)
+  kida_src_bind = abc_bind [("formula", "self.formula")]%string /\
+  umist_src_bind = abc_bind [("rtype", "self.reaction_type")]%string /\
+  leeds_src_bind = abc_bind [("rtype", "self.rtype"); ("re1", "self.reactants[0]");
+                             ("re2", "self.reactants[1] if len(self.reactants) > 1 else None")]%string /\
+  uclchem_src_bind = abc_bind [("rtype", "self.reaction_type"); ("zeta", "f'(zeta / zism)'"); ("re1", "self.reactants[0]")]%string /\
+  native_src_bind = abc_bind [("rtype", "self.reaction_type")]%string /\
+  [kida_src_tail; umist_src_tail; leeds_src_tail; uclchem_src_tail; native_src_tail] = repeat std_tail 5.
+Proof. intros ka kb kc. repeat split; reflexivity. Qed.
+Print Assumptions live_rate_sources.
+
+Theorem rate_models_are_source_branches : forall ka kb kc,
+  agrees (kida_rate ka kb kc) [Some 1; Some 2; Some 3; Some 4; Some 5; Some 6; Some 7]%Z (kida_expected ka kb kc) /\
+  agrees (fun z => umist_rate ka kb kc 100 102 101 120 (Some z)) [Some 100; Some 102; Some 101; Some 120; Some 0]%Z (umist_expected ka kb kc) /\
+  agrees (fun z => leeds_rate ka kb kc z "")
+         [Some 1; Some 2; Some 3; None; Some 5; None; None; None; None; None; Some 11; None; None; None; Some 15; None; Some 0]%Z
+         (leeds_expected ka kb kc) /\
+  agrees (fun z => uclchem_rate ka kb kc 100 101 120 102 z false)
+         [Some 100; Some 101; Some 120; None; None; None; None; None; None; Some 0]%Z (uclchem_expected ka kb kc) /\
+  agrees (native_rate ka kb kc true 100 101 102 110 111 120 1000)
+         [Some 100; Some 101; Some 102; Some 110; Some 111; Some 120; None; Some 1000; Some 0]%Z (native_expected ka kb kc).
+Proof.
+  intros ka kb kc. split. apply kida_model_is_branches. split. apply umist_model_is_branches.
+  split. apply leeds_model_is_branches. split. apply uclchem_model_is_branches. apply native_model_is_branches.
+Qed.
+Print Assumptions rate_models_are_source_branches.
